@@ -72,7 +72,8 @@ func runC13(c *Ctx) {
 	R.Require("C13.hdr", 40)
 	R.Require("C13.ctl", 4)
 	R.Require("C13.seq", 4)
-	R.Require("C13.hs", 6)
+	R.Require("C13.hs", 7)
+	R.Require("C13.readfrom", 1)
 	l := newLayout(c, "C13.hdr")
 	l.e.Contract = wsContract(P)
 	l.e.MaxDepth = 6
@@ -246,6 +247,69 @@ func runC13(c *Ctx) {
 
 	checkWSSeq(c)
 	checkWSHandshake(c)
+	checkWSReadFrom(c)
+}
+
+// checkWSReadFrom: io.Reader may return n > 0 together with an error (io.EOF); the bytes read must be
+// accounted before the error is looked at.
+func checkWSReadFrom(c *Ctx) {
+	P, R := c.P, c.R
+	fn := P.Func("websocket", "(*messageWriter).ReadFrom")
+	if !R.Anchor(fn != nil, "C13.readfrom", "websocket.(*messageWriter).ReadFrom") {
+		return
+	}
+	n := 0
+	core.EachInstr(fn, func(in ssa.Instruction) {
+		call, ok := in.(*ssa.Call)
+		if !ok || !call.Call.IsInvoke() || call.Call.Method.Name() != "Read" {
+			return
+		}
+		var cnt, errv ssa.Value
+		for _, r := range *call.Referrers() {
+			if ex, isEx := r.(*ssa.Extract); isEx {
+				if ex.Index == 0 {
+					cnt = ex
+				} else {
+					errv = ex
+				}
+			}
+		}
+		if cnt == nil {
+			R.Fail("C13.readfrom", "websocket|(*messageWriter).ReadFrom|count-used", P.InstrPos(call), "the byte count returned by Read is ignored", nil)
+			return
+		}
+		// the store into w.pos that adds cnt
+		found := false
+		for _, r := range *cnt.Referrers() {
+			bo, isB := r.(*ssa.BinOp)
+			if !isB {
+				continue
+			}
+			for _, r2 := range *bo.Referrers() {
+				st, isSt := r2.(*ssa.Store)
+				if !isSt || !strings.HasSuffix(core.Path(st.Addr), ".pos") {
+					continue
+				}
+				found = true
+				n++
+				dependsOnErr := false
+				for _, a := range core.GuardAtoms(st.Block()) {
+					if errv != nil && (a.LV == errv || a.RV == errv) {
+						dependsOnErr = true
+					}
+				}
+				R.Check(!dependsOnErr, "C13.readfrom", fmt.Sprintf("websocket|(*messageWriter).ReadFrom|bytes-counted-before-error#%d", n), P.InstrPos(st),
+					"bytes returned by Read are added to the frame before the error is examined",
+					"the bytes returned by Read are only counted when the error is nil: a reader that returns its last chunk together with io.EOF loses that chunk (truncated message)", nil)
+			}
+		}
+		if !found {
+			R.Fail("C13.readfrom", "websocket|(*messageWriter).ReadFrom|count-used", P.InstrPos(call), "the byte count returned by Read does not advance the buffer position", nil)
+		}
+	})
+	if n == 0 {
+		R.Unknown("C13.readfrom", "websocket|(*messageWriter).ReadFrom|bytes-counted-before-error", P.Pos(fn.Pos()), "no Read call found in ReadFrom", nil)
+	}
 }
 
 // checkWSSeq: C13.seq.
@@ -406,6 +470,34 @@ func checkWSHandshake(c *Ctx) {
 		for _, n := range needles {
 			R.Check(strings.Contains(strings.ToLower(text), strings.ToLower(n)), "C13.hs", "websocket|"+pkgFn+"|checks|"+n, P.Pos(fn.Pos()),
 				"the handshake tests "+n, "the handshake no longer tests "+n+" ("+rule+")", nil)
+		}
+	}
+	// the 101 response is read through the connection's own buffered reader, so frames that arrive in the same
+	// segment as the response stay available to the Conn
+	if dial := P.Func("websocket", "(*Dialer).Dial"); dial != nil {
+		n := 0
+		var mk ssa.Instruction
+		core.EachInstr(dial, func(in ssa.Instruction) {
+			if call, ok := in.(*ssa.Call); ok && call.Call.StaticCallee() != nil && call.Call.StaticCallee().Name() == "newConn" {
+				mk = in
+			}
+		})
+		core.EachInstr(dial, func(in ssa.Instruction) {
+			call, ok := in.(*ssa.Call)
+			if !ok || call.Call.StaticCallee() == nil || core.FullName(call.Call.StaticCallee()) != "http.ReadResponse" {
+				return
+			}
+			if mk == nil || !core.Precedes(mk, call) {
+				return // before the Conn exists (proxy CONNECT): nothing of the WebSocket session can be buffered yet
+			}
+			n++
+			p := core.Path(call.Call.Args[0])
+			R.Check(strings.HasSuffix(p, ".br"), "C13.hs", fmt.Sprintf("websocket|(*Dialer).Dial|response-read-through-conn-reader#%d", n), P.InstrPos(call),
+				"the handshake response is read through the connection's buffered reader",
+				"the handshake response is read through "+p+" instead of the connection's own buffered reader: frames the server sends right after the 101 response are buffered in a reader that is thrown away and never reach the application", nil)
+		})
+		if n == 0 {
+			R.Unknown("C13.hs", "websocket|(*Dialer).Dial|response-read-through-conn-reader", P.Pos(dial.Pos()), "Dial does not call http.ReadResponse", nil)
 		}
 	}
 	guardsEndInError("(*Upgrader).Upgrade", "server side of RFC 6455 4.2.1", []string{"GET", "const:Connection", "const:upgrade", "const:websocket", "const:Sec-Websocket-Version", "const:13", "const:Sec-Websocket-Key"})
